@@ -303,7 +303,7 @@ def run(ctx, report: Report) -> None:
     no_raise_table(ctx, r8, deep=(ctx.tier == 'thorough'))
 
     # ---- R9 --------------------------------------------------------------------------------------------------------------
-    r9 = report.rule('C08-R9', 'tree walks are iterative: no navigation helper is part of a call cycle', floor=5)
+    r9 = report.rule('C08-R9', 'tree walks are iterative: no navigation helper is part of a call cycle', floor=9)
     from .sem import no_tree_recursion_rule
     no_tree_recursion_rule(ctx, r9)
 
